@@ -166,8 +166,10 @@ theorem rotationAndStrainCore_rowScale (s : Fin 3 → ℝ) (hs : IsSign s) (phas
     rotationAndStrainCore phase crss (rowScale s A) D L p n lam
       = (rowScale s (rotationAndStrainCore phase crss A D L p n lam).1,
          (rotationAndStrainCore phase crss A D L p n lam).2) := by
-  have hz : (zero3 : Mat3) = rowScale s zero3 := by
-    funext i j; simp [rowScale, zero3]
+  have hz : noSlipRotation (rowScale s A) L = rowScale s (noSlipRotation A L) := by
+    funext i j
+    simp only [noSlipRotation, Mat3.memo_eq, orientationChange, Vec3.memo_eq, rowScale, sum3]
+    ring
   have hI : slipInvariants D (rowScale s A) = fun k => sysSign s k * slipInvariants D A k := by
     funext k; exact slipInvariants_rowScale s D A k
   unfold rotationAndStrainCore
@@ -182,8 +184,8 @@ theorem rotationAndStrainCore_rowScale (s : Fin 3 → ℝ) (hs : IsSign s) (phas
     simp only [Req, mul_eq_zero, hne, false_or]
   rw [hguard]
   split_ifs
-  · simp only [← hz]
-  · simp only [← hz]
+  · simp only [hz]
+  · simp only [hz]
   · have : slipRatesOlivine (slipInvariants D (rowScale s A)) perm crss n
         = fun k => sysSign s (perm 3) * sysSign s k * slipRatesOlivine (slipInvariants D A) perm crss n k := by
       funext k
